@@ -77,31 +77,31 @@ Definition block_close (trimmed : bytes) : bool :=
   | _ => false
   end.
 
-Fixpoint sum_line_starts (ls : list bytes) : N := match ls with [] => 0 | l :: t => blen l + 1 + sum_line_starts t end.
-
-Fixpoint go_loop (all : list bytes) (ls : list bytes) (num : nat) (in_block : bool) : list pkg :=
-  match ls with
+(* the line loop over the pieces of the document (each piece is a line with its terminator): [off] is the byte
+   offset of the piece in the document (the line slices are subslices of the content), [num] its number *)
+Fixpoint go_loop (pieces : list bytes) (num : nat) (off : N) (in_block : bool) : list pkg :=
+  match pieces with
   | [] => []
-  | line :: rest =>
+  | piece :: rest =>
+      let line := chomp piece in
+      let next := off + blen piece in
       let trimmed := trim line in
-      if beq trimmed [] || starts_with [47; 47] trimmed then go_loop all rest (S num) in_block
-      else if in_block && block_close trimmed then go_loop all rest (S num) false
-      else if match_block_start trimmed then go_loop all rest (S num) true
+      if beq trimmed [] || starts_with [47; 47] trimmed then go_loop rest (S num) next in_block
+      else if in_block && block_close trimmed then go_loop rest (S num) next false
+      else if match_block_start trimmed then go_loop rest (S num) next true
       else
-        let line_start := sum_line_starts (firstn num all) in
         if in_block then
           match match_require_spec (trim_end line) with
-          | Some (m, v, off) =>
-              mkPkg m v None (line_start + off) (line_start + off + blen v) (N.of_nat num) off None :: go_loop all rest (S num) in_block
-          | None => go_loop all rest (S num) in_block
+          | Some (m, v, o) =>
+              mkPkg m v None (off + o) (off + o + blen v) (N.of_nat num) o None :: go_loop rest (S num) next in_block
+          | None => go_loop rest (S num) next in_block
           end
         else
           match match_single_require trimmed with
-          | Some (m, v, _) =>
-              let require_pos := match find_str kw_require line with Some p => p | None => 0 end in
-              let vpos := match find_str v (skipn_N require_pos line) with Some p => require_pos + p | None => 0 end in
-              mkPkg m v None (line_start + vpos) (line_start + vpos + blen v) (N.of_nat num) vpos None :: go_loop all rest (S num) in_block
-          | None => go_loop all rest (S num) in_block
+          | Some (m, v, o) =>
+              let vpos := blen line - blen (trim_start line) + o in       (* the regex ran on the trimmed line *)
+              mkPkg m v None (off + vpos) (off + vpos + blen v) (N.of_nat num) vpos None :: go_loop rest (S num) next in_block
+          | None => go_loop rest (S num) next in_block
           end
   end.
-Definition parse_go_mod (content : bytes) : list pkg := let ls := lines content in go_loop ls ls O false.
+Definition parse_go_mod (content : bytes) : list pkg := go_loop (split_inclusive_aux content []) O 0 false.
